@@ -1,6 +1,6 @@
 (** Proofs about SM/Snapshot.v and SM/Replay.v (C01): the tree names are closed under the
     generated routing, and a restart from snapshot + log reproduces the served state. *)
-From RN Require Import SM.Replay RaftLog.SnapFileProofs.
+From RN Require Import SM.Replay RaftLog.SnapFileProofs Codec.BufReaderProofs.
 From Coq Require Import Lia.
 Local Open Scope nat_scope.
 
@@ -17,17 +17,17 @@ Proof. destruct a, b; reflexivity. Qed.
 
 (** a key that another component claims on the same tree through a constant-key literal
     (generated [writes]): today only ("T_SEQUENCE", "SEQ_CONFIG"), claimed by Config *)
-Definition reserved_by_other (c : comp) (tree key : string) : bool :=
+Definition reserved_by_other (c : comp) (tree : string) (key : list N) : bool :=
   existsb (fun cw => negb (comp_eqb (fst cw) c) &&
                      existsb (fun w => match w with
-                                       | WTreeKey n k => String.eqb n tree && String.eqb k key
+                                       | WTreeKey n k => String.eqb n tree && bytes_eqb (bytes_of_lit k) key
                                        | _ => false
                                        end) (snd cw)) writes.
 
 (** the tables that TableManager is used with (user/mod.rs: T_USER; raft/cache: T_CACHE) *)
 Definition table_names_in_use : list string := ["T_USER"; "T_CACHE"]%string.
 
-Definition routed_to (c : comp) (tree key : string) : Prop :=
+Definition routed_to (c : comp) (tree key : list N) : Prop :=
   exists lm, route load_arms tree key = Some (c, lm).
 
 (** every record a component's source can write is routed back to that component:
@@ -35,25 +35,23 @@ Definition routed_to (c : comp) (tree key : string) : Prop :=
     TableManager's own table names, for the tables in use *)
 Definition closed_entry (c : comp) (w : wtree) : Prop :=
   match w with
-  | WTreeKey n k => routed_to c n k
-  | WTree n => forall key, reserved_by_other c n key = false -> routed_to c n key
-  | WTableName => forall n key, In n table_names_in_use -> routed_to c n key
+  | WTreeKey n k => routed_to c (bytes_of_lit n) (bytes_of_lit k)
+  | WTree n => forall key, reserved_by_other c n key = false -> routed_to c (bytes_of_lit n) key
+  | WTableName => forall n key, In n table_names_in_use -> routed_to c (bytes_of_lit n) key
   end.
 
-Lemma route_any_key (c : comp) (lm : load_msg) (n : string) :
-  (forall key, route load_arms n key = Some (c, lm)) -> forall key, routed_to c n key.
-Proof. intros H key. exists lm. apply H. Qed.
+Definition SEQ_CONFIG_KEY : list N := bytes_of_lit "SEQ_CONFIG".
 
 Lemma route_sequence key :
-  route load_arms "T_SEQUENCE" key
-  = if String.eqb "SEQ_CONFIG" key then Some (KConfig, LInnerSetLastId) else Some (KSequence, LLoadRecord).
+  route load_arms (bytes_of_lit "T_SEQUENCE") key
+  = if bytes_eqb SEQ_CONFIG_KEY key then Some (KConfig, LInnerSetLastId) else Some (KSequence, LLoadRecord).
 Proof. reflexivity. Qed.
 
 Lemma reserved_sequence key :
-  reserved_by_other KSequence "T_SEQUENCE" key = String.eqb "SEQ_CONFIG" key.
+  reserved_by_other KSequence "T_SEQUENCE" key = bytes_eqb SEQ_CONFIG_KEY key.
 Proof.
-  unfold reserved_by_other, writes. cbv -[String.eqb]. rewrite String.eqb_refl.
-  destruct (String.eqb "SEQ_CONFIG" key); reflexivity.
+  unfold reserved_by_other, writes, SEQ_CONFIG_KEY. cbv -[bytes_eqb bytes_of_lit].
+  destruct (bytes_eqb (bytes_of_lit "SEQ_CONFIG") key); reflexivity.
 Qed.
 
 Ltac close_entry :=
@@ -83,10 +81,11 @@ Qed.
 
 (** the exceptions are real: a sequence named SEQ_CONFIG is routed to Config, and a table with
     another name is dropped by load_snapshot *)
-Lemma seq_config_key_misrouted : route load_arms "T_SEQUENCE" "SEQ_CONFIG" = Some (KConfig, LInnerSetLastId).
+Lemma seq_config_key_misrouted :
+  route load_arms (bytes_of_lit "T_SEQUENCE") (bytes_of_lit "SEQ_CONFIG") = Some (KConfig, LInnerSetLastId).
 Proof. reflexivity. Qed.
 
-Lemma other_table_dropped : forall key, route load_arms "T_OTHER" key = None.
+Lemma other_table_dropped : forall key, route load_arms (bytes_of_lit "T_OTHER") key = None.
 Proof. reflexivity. Qed.
 
 Lemma build_order_complete : forall c, In c build_order.
@@ -117,7 +116,6 @@ Section Restart.
 
   (** observational equivalence of component states (what the queries can tell apart) *)
   Variable ceq : comp -> S -> S -> Prop.
-  Hypothesis ceq_refl : forall c s, ceq c s s.
   Hypothesis ceq_trans : forall c s1 s2 s3, ceq c s1 s2 -> ceq c s2 s3 -> ceq c s1 s3.
   Hypothesis apply_cong : forall c s1 s2 m, ceq c s1 s2 -> ceq c (capply c s1 m) (capply c s2 m).
 
@@ -133,8 +131,44 @@ Section Restart.
       literals).  [roundtrip]: loading its own snapshot into the initial state gives an
       equivalent state (the snapshot round-trip law — proved for concrete models, a hypothesis
       for MCP / direct cache / ...). *)
-  Hypothesis snap_routed : forall c s r, In r (csnap c s) -> routed_to c (rtree r) (rkey r).
-  Hypothesis roundtrip : forall c s, ceq c (fold_left (cload_routed c) (csnap c s) (cinit c)) s.
+  (** [cinv]: an invariant of the reachable component states; [mok]: the messages in scope
+      (both are [True] for the abstract statement) *)
+  Variable cinv : comp -> S -> Prop.
+  Variable mok : comp -> M -> Prop.
+  (** [cok]: the state can be written to a snapshot (byte strings, u64 counters) — a side
+      condition on the state AT the compaction point, not an inductive invariant *)
+  Variable cok : comp -> S -> Prop.
+  Hypothesis ceq_refl : forall c s, cinv c s -> ceq c s s.
+  Hypothesis inv_init : forall c, cinv c (cinit c).
+  Hypothesis inv_apply : forall c s m, cinv c s -> mok c m -> cinv c (capply c s m).
+  Hypothesis snap_routed : forall c s r, cinv c s -> cok c s -> In r (csnap c s) -> routed_to c (rtree r) (rkey r).
+  Hypothesis roundtrip : forall c s, cinv c s -> cok c s ->
+                                     ceq c (fold_left (cload_routed c) (csnap c s) (cinit c)) s.
+
+  Definition entry_ok (e : entry) : Prop :=
+    match e with Some (c, m) => mok c m | None => True end.
+
+  Definition node_inv (st : node) : Prop := forall c, cinv c (st c).
+  Definition node_ok (st : node) : Prop := forall c, cok c (st c).
+
+  Lemma apply_entry_inv (st : node) e : node_inv st -> entry_ok e -> node_inv (apply_entry S M capply st e).
+  Proof.
+    intros I O c. destruct e as [[c' m] |]; simpl; [| apply I].
+    unfold updc. destruct (comp_eqb c c') eqn:E; [| apply I].
+    apply comp_eqb_eq in E. subst c'. now apply inv_apply.
+  Qed.
+
+  Lemma run_inv hist : forall st, node_inv st -> Forall entry_ok hist -> node_inv (run hist st).
+  Proof.
+    induction hist as [| e hist IH]; intros st I O; simpl; [assumption |].
+    inversion O; subst. apply IH; [now apply apply_entry_inv | assumption].
+  Qed.
+
+  Lemma init_inv : node_inv init.
+  Proof. intros c. apply inv_init. Qed.
+
+  Lemma Forall_firstn {A} (P : A -> Prop) n (l : list A) : Forall P l -> Forall P (firstn n l).
+  Proof. revert n. induction l; intros [| n] H; simpl; try constructor; inversion H; subst; auto. Qed.
 
   Lemma updc_same (f : node) c x : updc S f c x c = x.
   Proof. unfold updc. now rewrite comp_eqb_refl. Qed.
@@ -155,20 +189,20 @@ Section Restart.
   Qed.
 
   (** records of another component do not touch [c] *)
-  Lemma foreign_records c c' s : c' <> c -> forall x,
+  Lemma foreign_records c c' s : cinv c' s -> cok c' s -> c' <> c -> forall x,
     fold_left (cload_routed c) (csnap c' s) x = x.
   Proof.
-    intros NE. generalize (snap_routed c' s). induction (csnap c' s) as [| r l IH]; intros H x; [reflexivity |].
+    intros I K NE. generalize (fun r => snap_routed c' s r I K). induction (csnap c' s) as [| r l IH]; intros H x; [reflexivity |].
     simpl. rewrite IH by (intros r' Hr'; apply H; now right).
     destruct (H r (or_introl eq_refl)) as [lm R]. unfold cload_routed. rewrite R.
     destruct (comp_eqb c' c) eqn:E; [apply comp_eqb_eq in E; contradiction | reflexivity].
   Qed.
 
-  Lemma load_blocks (st : node) c l : NoDup l -> forall x,
+  Lemma load_blocks (st : node) c l : node_inv st -> node_ok st -> NoDup l -> forall x,
     fold_left (cload_routed c) (flat_map (fun c' => csnap c' (st c')) l) x
     = if existsb (comp_eqb c) l then fold_left (cload_routed c) (csnap c (st c)) x else x.
   Proof.
-    induction l as [| c' l IH]; intros ND x; [reflexivity |].
+    intros I K. induction l as [| c' l IH]; intros ND x; [reflexivity |].
     inversion ND as [| ? ? Hn ND']; subst. simpl. rewrite fold_left_app.
     destruct (comp_eqb c c') eqn:E.
     - apply comp_eqb_eq in E; subst c'. simpl. rewrite IH by assumption.
@@ -176,16 +210,19 @@ Section Restart.
       apply existsb_exists in Ex. destruct Ex as [d [Hd Ed]]. apply comp_eqb_eq in Ed. subst d. contradiction.
     - simpl. rewrite foreign_records.
       + now apply IH.
+      + apply I.
+      + apply K.
       + intros ->. now rewrite comp_eqb_refl in E.
   Qed.
 
   (** loading the snapshot of a node state gives back an equivalent node state *)
-  Lemma load_build (st : node) c : ceq c (load_snapshot (build_snapshot st) init c) (st c).
+  Lemma load_build (st : node) c :
+    node_inv st -> node_ok st -> ceq c (load_snapshot (build_snapshot st) init c) (st c).
   Proof.
-    rewrite load_snapshot_comp. unfold Snapshot.build_snapshot.
-    rewrite load_blocks by apply build_order_nodup.
+    intros I K. rewrite load_snapshot_comp. unfold Snapshot.build_snapshot.
+    rewrite load_blocks by (assumption || apply build_order_nodup).
     replace (existsb (comp_eqb c) build_order) with true by (destruct c; reflexivity).
-    apply roundtrip.
+    apply roundtrip; [apply I | apply K].
   Qed.
 
   Lemma apply_entry_cong (st1 st2 : node) e :
@@ -209,19 +246,24 @@ Section Restart.
   (** ** record level: for every history and every compaction point, snapshot + log replay
       reproduces every component's state up to observational equivalence *)
   Theorem restart_state :
-    forall (hist : list entry) (k : nat), k <= length hist ->
+    forall (hist : list entry) (k : nat), k <= length hist -> Forall entry_ok hist ->
+    node_ok (run (firstn k hist) init) ->
     forall c, ceq c (start_up (Some (k, build_snapshot (run (firstn k hist) init))) hist (length hist) c)
                     (run hist init c).
   Proof.
-    intros hist k Hk c. unfold Replay.start_up.
+    intros hist k Hk OK NK c. unfold Replay.start_up.
+    assert (IK : node_inv (run (firstn k hist) init)) by (apply run_inv; [apply init_inv | now apply Forall_firstn]).
     destruct (length hist =? 0) eqn:E0.
     - apply Nat.eqb_eq in E0. assert (k = 0) by lia. subst k.
-      destruct hist; [| discriminate]. simpl. apply load_build.
+      destruct hist; [| discriminate]. simpl. apply load_build; [apply init_inv | exact NK].
     - assert (E : firstn (length hist - k) (skipn k hist) = skipn k hist).
       { apply firstn_all2. rewrite skipn_length. lia. }
       rewrite E. rewrite <- (firstn_skipn k hist) at 3. rewrite run_app.
-      apply run_cong. intros d. apply load_build.
+      apply run_cong. intros d. now apply load_build.
   Qed.
+
+  Lemma run_refl hist : Forall entry_ok hist -> forall c, ceq c (run hist init c) (run hist init c).
+  Proof. intros OK c. apply ceq_refl. apply run_inv; [apply init_inv | assumption]. Qed.
 
   (** a node that never compacted replays its whole log *)
   Theorem restart_state_no_snapshot :
@@ -268,16 +310,19 @@ Section Restart.
       restart (which replays from k + 1) is still exact on every replay-idempotent component *)
   Theorem restart_racy_idempotent :
     forall (hist : list entry) (k : nat) (j : comp -> nat) (c : comp),
-      replay_idempotent c ->
+      Forall entry_ok hist -> replay_idempotent c ->
+      (forall d, cok d (run (firstn (k + j d) hist) init d)) ->
       ceq c (restart_racy S M capply csnap cload cinit hist k j c) (run hist init c).
   Proof.
-    intros hist k j c ID. unfold restart_racy, Replay.start_up.
+    intros hist k j c OK ID NK. unfold restart_racy, Replay.start_up.
     set (stj := fun c' : comp => run (firstn (k + j c') hist) init c').
+    assert (IJ : node_inv stj).
+    { intros d. unfold stj. apply run_inv; [apply init_inv | now apply Forall_firstn]. }
     assert (LB : forall d, ceq d (load_snapshot (build_snapshot_racy S M capply csnap cinit hist k j) init d) (stj d)).
-    { intros d. change (build_snapshot_racy S M capply csnap cinit hist k j) with (build_snapshot stj). apply load_build. }
+    { intros d. change (build_snapshot_racy S M capply csnap cinit hist k j) with (build_snapshot stj). now apply load_build. }
     destruct (length hist =? 0) eqn:E0.
     - apply Nat.eqb_eq in E0. destruct hist; [| discriminate].
-      eapply ceq_trans; [apply LB |]. unfold stj. rewrite firstn_nil. apply ceq_refl.
+      eapply ceq_trans; [apply LB |]. unfold stj. rewrite firstn_nil. apply ceq_refl, init_inv.
     - assert (E : firstn (length hist - k) (skipn k hist) = skipn k hist).
       { apply firstn_all2. rewrite skipn_length. lia. }
       rewrite E. eapply ceq_trans; [apply run_cong; exact LB |].
@@ -306,10 +351,6 @@ Section Restart.
   Variable enc : record -> list N.
   Variable dec_frame : list N -> option record.
 
-  Hypothesis framing_1024 : forall bodies : list (list N),
-    Forall nonempty bodies ->
-    feed_drain (blocks1024 (concat (map frame bodies))) mbr_new = Ok (map frame bodies).
-
   Notation restart := (restart S M capply csnap cload cinit enc dec_frame).
 
   Lemma decode_frames recs :
@@ -322,24 +363,25 @@ Section Restart.
   (** the record codec is faithful on the records of this snapshot, the header fits the first
       read *)
   Definition codec_ok (hdr : list N) (recs : list record) : Prop :=
-    nonempty hdr /\ length (frame hdr) <= 1024 /\
-    Forall (fun r => dec_frame (frame (enc r)) = Some r /\ nonempty (enc r)) recs.
+    rec_ok hdr /\ length (frame hdr) <= 1024 /\
+    Forall (fun r => dec_frame (frame (enc r)) = Some r /\ rec_ok (enc r)) recs.
 
   (** ** restart_reproduces: for every history, every compaction point and every leftover
       content of the snapshot path (an interrupted earlier attempt with the same id), the
       repaired writer yields a node equivalent to the one that ran the history *)
   Theorem restart_reproduces :
     forall (hist : list entry) (k : nat) (leftover hdr : list N),
-      k <= length hist ->
+      k <= length hist -> Forall entry_ok hist ->
+      node_ok (run (firstn k hist) init) ->
       codec_ok hdr (build_snapshot (run (firstn k hist) init)) ->
       exists nd, restart write_truncate leftover hdr hist k = Ok nd /\
                  forall c, ceq c (nd c) (run hist init c).
   Proof.
-    intros hist k leftover hdr Hk [Hh [Hl Hc]]. unfold Replay.restart.
+    intros hist k leftover hdr Hk OK NK [Hh [Hl Hc]]. unfold Replay.restart.
     destruct k as [| k'].
-    - eexists; split; [reflexivity |]. intros c. rewrite restart_state_no_snapshot. apply ceq_refl.
+    - eexists; split; [reflexivity |]. intros c. rewrite restart_state_no_snapshot. now apply run_refl.
     - set (k := Datatypes.S k') in *. unfold start_up_files, snapshot_file.
-      rewrite (snap_roundtrip_over_leftover framing_1024).
+      rewrite snap_roundtrip_over_leftover.
       + cbn [res_map snd]. eexists; split; [reflexivity |]. intros c.
         rewrite decode_frames.
         * now apply restart_state.
